@@ -4,14 +4,24 @@ from harness.common import PL, Ref, same, NEVER, RULES
 
 
 def pick(E, name, pool, st):
-    """operand index in canonical order: a not-yet-used pool member is always the
-    smallest unused one (pool members of the same shape are interchangeable)"""
-    if st.get("free"):
-        k = E.choose(name, len(pool))
-    else:
-        n = min(len(pool), st["used"] + 1)
-        k = E.choose(name, n)
-    st["used"] = max(st["used"], k + 1)
+    """operand index with a symmetry reduction that is sound only among interchangeable
+    pool members (same `cls`: same shape, independent fresh bytes): a not-yet-used
+    member may be chosen only if it is the first unused one of its class"""
+    used = st.setdefault("used_set", set())
+    allowed = []
+    seen_unused = set()
+    for i, pl in enumerate(pool):
+        if i in used:
+            allowed.append(i)
+            continue
+        c = getattr(pl, "cls", None)
+        if c is None:
+            allowed.append(i)
+        elif c not in seen_unused:
+            seen_unused.add(c)
+            allowed.append(i)
+    k = allowed[E.choose(name, len(allowed))]
+    used.add(k)
     return k
 
 
@@ -25,7 +35,7 @@ class History(object):
         self.pool = pool
         self.alphabet = list(alphabet)
         self.opts = opts or {}
-        self.st = {"used": 0, "free": bool(self.opts.get("free_operands"))}
+        self.st = {}
         self.webentities = []     # [weid, [prefix PL...]] as created through the API (model view)
         self.log = []
 
@@ -54,6 +64,43 @@ class History(object):
         info["kind"] = kind
         self.log.append(info)
         return kind, info
+
+    def prelude(self, spec):
+        """fixed (non-symbolic) requests that build a state template before the free history"""
+        E = self.E
+        for item in spec or []:
+            kind = item[0]
+            self.ref.created = []
+            if kind == "page":
+                a = self.pool[item[1]]
+                crawled = bool(item[2]) if len(item) > 2 else False
+                E.call("add_page", self.t.add_page, a.lru, crawled=crawled, _allowed=())
+                self.ref.insert(E, a, crawled)
+            elif kind == "batch":
+                s_ = self.pool[item[1]]
+                ts = [self.pool[j] for j in item[2]]
+                E.call("index_batch_crawl", self.t.index_batch_crawl, {s_.lru: [x.lru for x in ts]}, _allowed=())
+                self.ref.insert(E, s_, True)
+                for x in ts:
+                    self.ref.insert(E, x, False)
+                    self.ref.add_link(s_, x)
+            elif kind == "links":
+                pairs = [(self.pool[a], self.pool[b]) for a, b in item[1]]
+                E.call("add_links", self.t.add_links, [(a.lru, b.lru) for a, b in pairs], _allowed=())
+                for a, b in pairs:
+                    self.ref.insert(E, a, False)
+                    self.ref.insert(E, b, False)
+                    self.ref.add_link(a, b)
+            elif kind == "we":
+                ps = [self.pool[i].prefix(k) for i, k in item[1]]
+                E.call("create_webentity", self.t.create_webentity, [p.lru for p in ps], _allowed=())
+                for p in ps:
+                    self.ref.name(p)
+                weid = self.ref.new_id()
+                for p in ps:
+                    self.ref.prefixes.set(p.lru, weid)
+            else:
+                raise ValueError(kind)
 
     # -- page writes ---------------------------------------------------------------
     def op_page(self, n):
@@ -278,6 +325,39 @@ class History(object):
         ok, res = E.call("move_prefix_to_webentity", self.t.move_prefix_to_webentity, lru, dst[0], src[0])
         E.check(ok, "move_prefix:refused", "moving a prefix between two webentities was refused")
         self.ref.prefixes.set(lru, dst[0])
+        return {"new_pages": 0}
+
+
+    # -- close/reopen and clear (file back-end) -----------------------------------------
+    def current_rules(self):
+        out = {}
+        for anchor, rn in self.ref.rules.items():
+            out[anchor] = NEVER if rn == "never" else RULES[rn]
+        return out
+
+    def default_pattern(self):
+        d = self.ref.default_rule
+        return NEVER if d in (None, "never") else RULES[d]
+
+    def op_reopen(self, n):
+        """close and open again on the same folder, rules re-supplied as the API requires"""
+        E = self.E
+        folder = self.opts["folder"]
+        E.call("close", self.t.close, _allowed=())
+        ok, t = E.call("reopen", lambda: E.Traph(folder=folder, default_webentity_creation_rule=self.default_pattern(),
+                                                  webentity_creation_rules=self.current_rules()))
+        E.check(ok, "reopen:refused", "reopening a cleanly closed index was refused")
+        self.t = t
+        return {"new_pages": 0}
+
+    def op_clear(self, n):
+        E = self.E
+        ok, _ = E.call("clear", self.t.clear, self.default_pattern(), {})
+        E.check(ok, "clear:refused")
+        d = self.ref.default_rule
+        fresh = Ref()
+        fresh.default_rule = d
+        self.ref.__dict__.update(fresh.__dict__)
         return {"new_pages": 0}
 
 
